@@ -10,7 +10,7 @@ IMPL = r'impl<S, K, F> MaxChannelsPerKey<S, K, F> where S: Stream, K: fmt::Displ
 STREAM = r'impl<S, K, F> Stream for MaxChannelsPerKey<S, K, F> where S: Stream, K: fmt::Display \+ Eq \+ Hash \+ Clone \+ Unpin, F: Fn\(&S::Item\) -> K,'
 
 RULES = [
-    Rule('R2:as-mut', r'self\.as_mut\(\)\.', 'self.', why='A-pin'),
+    Rule('R2:as-mut', r'self\s*\.as_mut\(\)\s*\.', 'self.', flags=re.M | re.S, why='A-pin'),
     Rule('R2:project-let', r'let self_ = self\.project\(\);', 'let self_ = self;', why='A-pin: projection is field access'),
     Rule('R2:project-ref', r'let dropped_keys = self_\.dropped_keys_tx;', 'let dropped_keys = &self_.dropped_keys_tx;', why='projection yields a reference to the field'),
     Rule('R2:project-deref', r'\*self_\.channels_per_key', 'self_.channels_per_key', why='projection yields a reference to the field'),
